@@ -114,6 +114,14 @@ func (w *ipWorld) goSafe(tag string, f func()) {
 // the real runIPServer on each.
 func (w *ipWorld) startListeners(n int, provider *ntske.Provider) {
 	w.provider = provider
+	if n >= 2 && w.r.Tape.Bool(1, 4, "real-start") {
+		// the service's own start-up: StartIPServer binds its eight sockets and starts the loops
+		w.net.Setup = true
+		server.StartIPServer(context.Background(), quietLog(), &net.UDPAddr{IP: net.ParseIP(w.srvAddr.Addr().String()), Port: int(w.srvAddr.Port())}, 0, provider)
+		w.net.Setup = false
+		w.r.Probe("listeners-started-by-the-service")
+		return
+	}
 	m := server.VerifNewIPServerMetrics()
 	for i := 0; i < n; i++ {
 		c, err := w.net.Listen(w.srvAddr.String(), true)
